@@ -52,13 +52,19 @@ func c14ops(names []string) []c14op {
 	for _, ss := range svcSets {
 		ss := ss
 		ops = append(ops, c14op{fmt.Sprintf("WithServicesEnabled%v", ss), []string{"Services", "DisabledServices", "Profiles"},
-			func(p *types.Project) (*types.Project, error) { return p.WithServicesEnabled(append([]string{}, ss...)...) }})
+			func(p *types.Project) (*types.Project, error) {
+				return p.WithServicesEnabled(append([]string{}, ss...)...)
+			}})
 		ops = append(ops, c14op{fmt.Sprintf("WithServicesDisabled%v", ss), []string{"Services", "DisabledServices"},
-			func(p *types.Project) (*types.Project, error) { return p.WithServicesDisabled(append([]string{}, ss...)...), nil }})
+			func(p *types.Project) (*types.Project, error) {
+				return p.WithServicesDisabled(append([]string{}, ss...)...), nil
+			}})
 		for pi, pol := range []types.DependencyOption{types.IncludeDependencies, types.IncludeDependents, types.IgnoreDependencies} {
 			pol := pol
 			ops = append(ops, c14op{fmt.Sprintf("WithSelectedServices%v/policy%d", ss, pi), []string{"Services", "DisabledServices"},
-				func(p *types.Project) (*types.Project, error) { return p.WithSelectedServices(append([]string{}, ss...), pol) }})
+				func(p *types.Project) (*types.Project, error) {
+					return p.WithSelectedServices(append([]string{}, ss...), pol)
+				}})
 		}
 	}
 	ops = append(ops, c14op{"WithoutUnnecessaryResources", []string{"Networks", "Volumes", "Secrets", "Configs"},
@@ -253,6 +259,22 @@ func c14check(orig *types.Project, op c14op) (*types.Project, *core.Violation) {
 		}
 		return res, &core.Violation{Key: "aliasing:" + opClass(op.name) + ":" + strings.TrimPrefix(cls, "receiver."),
 			Msg: fmt.Sprintf("result of %s shares mutable state with its receiver (%d objects), e.g. %s", op.name, len(shared), where), Detail: shared}
+	}
+	// every service of the receiver is still in the result, enabled or disabled (selection moves services, it never drops them)
+	if len(op.footprint) > 0 {
+		have := map[string]bool{}
+		for n := range res.Services {
+			have[n] = true
+		}
+		for n := range res.DisabledServices {
+			have[n] = true
+		}
+		for n := range state.AllServices() {
+			if !have[n] {
+				return res, &core.Violation{Key: "service-lost:" + opClass(op.name),
+					Msg: fmt.Sprintf("%s: service %s of the receiver is neither enabled nor disabled in the result", op.name, n)}
+			}
+		}
 	}
 	// (c) writing through the result must not reach the receiver (cheap spot check on labels of every network)
 	// (d) footprint
